@@ -1,3 +1,4 @@
+import Treepath.Proofs.DriveX
 import Treepath.Proofs.Drive
 import Treepath.Model.Api
 /- C05 — get, get_match and find are projections of find_matches -/
@@ -54,5 +55,26 @@ theorem getMatch_is_head_of_eval (steps : Array (Step J)) (src : Src J) (hq : Qu
     rw [hr]; rfl
   · intro hs
     exact (exhausted_all steps src hq hp cx.limit freshIter st' [] [] evs (.nil _) hs).symm
+
+/-- the same for every path, predicates that raise included: the first `next()` of a fresh
+iterator answers with the first result of the definition, says "not found" exactly when the
+definition finishes empty-handed, and raises exactly the exception the definition raises
+before producing anything -/
+theorem getMatch_is_definition_any_predicate (steps : Array (Step J)) (src : Src J) (hp : PredsClean steps)
+    (limit : Nat) (st' : St J) (evs : List (Ev J)) :
+    (∀ n, next J.view steps src limit freshIter = (st', evs, .result n) →
+        (evalE steps.toList src.rootNode).1.head? = some n) ∧
+    (next J.view steps src limit freshIter = (st', evs, .stop) → evalE steps.toList src.rootNode = ([], none)) ∧
+    (∀ x, x ≠ .loopDetected → next J.view steps src limit freshIter = (st', evs, .raised x) →
+        evalE steps.toList src.rootNode = ([], some x)) := by
+  refine ⟨?_, ?_, ?_⟩
+  · intro n hn
+    obtain ⟨rest, hr⟩ := yields_prefix_x steps src hp limit st' [n] (evs ++ [])
+      (.cons _ _ _ _ _ _ _ hn (.nil _))
+    rw [hr]; rfl
+  · intro hs
+    exact exhausted_all_x steps src hp limit freshIter st' [] [] evs (.nil _) hs
+  · intro x hx hr
+    exact raises_x steps src hp limit freshIter st' [] [] evs x (.nil _) hr hx
 
 end Treepath.C05
